@@ -28,7 +28,7 @@ structure World where
 
 /-- the part of VueContext that evaluation reads -/
 structure Ctx where
-  slots : Option SlotScope
+  slots : List SlotScope     -- innermost first: the content supplied on this component instance's own tag, then the includer's, and so on outwards
   chain : List Str          -- TemplateStack
   deriving Inhabited
 
@@ -527,7 +527,7 @@ def evalInclude (W : World) : Nat → Ctx → St → List Attr → List Node →
         match wrapperRequired dom1 (sk.envMap W.P.cfg) with
         | some missing => .err "required" (S "error in " ++ name ++ S " (included from " ++ formatChain ctx ++ S "): required attribute '" ++ missing ++ S "' not provided")
         | none =>
-          bindR (evalList W f { slots := some (extractSlotContent kids), chain := ctx.chain ++ [name] } { st with stack := sk } dom1)
+          bindR (evalList W f { slots := extractSlotContent kids :: ctx.slots, chain := ctx.chain ++ [name] } { st with stack := sk } dom1)
             (fun res st1 => .ok (res, { st1 with stack := st1.stack.pop }))
 
 /-- `evalSlot` -/
@@ -536,19 +536,24 @@ def evalSlot (W : World) : Nat → Ctx → St → List Attr → List Node → R 
   | f + 1, ctx, st, attrs, kids =>
     let name := if getAttr attrs (S "name") == [] then S "default" else getAttr attrs (S "name")
     let props := slotProps W.P (st.stack.envMap W.P.cfg) attrs
-    match ctx.slots.bind (fun sc => sc.lookup name) with
-    | some content =>
-      (match content.tmpl with
-       | some tk =>
-         bindR (evalList W f ctx { st with stack := slotScopeStack st.stack (scopedVarName tk.1) props } tk.2)
-           (fun res st1 => .ok (res, { st1 with stack := st1.stack.pop }))
-       | none => evalList W f ctx st content.nodes)
-    | none => if !kids.isEmpty then evalList W f ctx st kids else .ok ([], st)
+    match ctx.slots with
+    | sc :: outer =>
+      (match sc.lookup name with
+       | some content =>
+         -- supplied content belongs to the includer: a `<slot>` inside it refers to the includer's slots, never to this instance's own
+         -- content again (fix: SlotScope.Outer)
+         (match content.tmpl with
+          | some tk =>
+            bindR (evalList W f { ctx with slots := outer } { st with stack := slotScopeStack st.stack (scopedVarName tk.1) props } tk.2)
+              (fun res st1 => .ok (res, { st1 with stack := st1.stack.pop }))
+          | none => evalList W f { ctx with slots := outer } st content.nodes)
+       | none => if !kids.isEmpty then evalList W f ctx st kids else .ok ([], st))
+    | [] => if !kids.isEmpty then evalList W f ctx st kids else .ok ([], st)
 
 end
 
 /-- `renderNodesWithContext` up to serialisation: component tags rewritten, then evaluated from a fresh context -/
 def evaluatePage (W : World) (fuel : Nat) (file : Str) (dom : List Node) (stack : Stack) : R (List Node) :=
-  evalList W fuel { slots := none, chain := [file] } { stack := stack, seen := [] } (resolveTagsList W.comps dom)
+  evalList W fuel { slots := [], chain := [file] } { stack := stack, seen := [] } (resolveTagsList W.comps dom)
 
 end Vuego
